@@ -42,7 +42,13 @@ var tables = []string{"t", "users", "orders", "items", "logs", "a", "b"}
 var cols = []string{"id", "name", "x", "y", "total", "created_at", "status", "amount"}
 
 func (g G) ident() string { return g.pick("col", cols...) }
-func (g G) table() string { return g.pick("tbl", tables...) }
+func (g G) table() string {
+	t := g.pick("tbl", tables...)
+	if g.n(6, "qualified") == 5 {
+		return g.pick("schema", "public", "sales", "db1.dbo") + "." + t // schema-qualified
+	}
+	return t
+}
 
 func (g G) literal() string {
 	switch g.n(6, "lit") {
@@ -355,7 +361,21 @@ func (g G) Corrupt(s string) string {
 		return s
 	}
 	i := g.n(len(f), "cpos")
-	switch g.n(5, "ckind") {
+	switch g.n(7, "ckind") {
+	case 5, 6:
+		// a prefix of the text, cut at a byte - preferably right after a
+		// punctuation character, where a parser has just committed to a construct
+		var after []int
+		for k := 0; k < len(s); k++ {
+			switch s[k] {
+			case '.', '(', ',', '=', ':', '[', '\'', '"':
+				after = append(after, k+1)
+			}
+		}
+		if len(after) > 0 && g.n(2, "cutpunct") == 1 {
+			return s[:after[g.n(len(after), "cutat")]]
+		}
+		return s[:g.n(len(s), "cutbyte")]
 	case 0: // delete token
 		f = append(f[:i], f[i+1:]...)
 	case 1: // truncate after token
